@@ -301,6 +301,7 @@ impl Exec {
             }
         });
         let top = self.top.take();
+        world::node_drop_begin(self.top_id);
         let r = catch_unwind(AssertUnwindSafe(move || drop(top)));
         let id = self.top_id;
         if let Err(e) = r {
